@@ -26,6 +26,8 @@ func TestC33(t *testing.T) {
 		{Name: "wire-ring", Queue: "ring", Multiplex: -1, RingScale: 2, Callers: callers, Ops: ops, CancelPct: 30},
 		{Name: "wire-ring-mux", Queue: "ring", Multiplex: 2, RingScale: 10, Callers: callers, Ops: ops, CancelPct: 20},
 		{Name: "wire-flow", Queue: "flowbuffer", Multiplex: -1, RingScale: 1, Callers: callers, Ops: ops, CancelPct: 30},
+		{Name: "wire-cluster-ring", Queue: "ring", Multiplex: -1, RingScale: 1, Cluster: true, Callers: callers, Ops: ops, CancelPct: 30},
+		{Name: "wire-cluster-flow", Queue: "flowbuffer", Multiplex: -1, RingScale: 1, Cluster: true, Callers: callers, Ops: ops, CancelPct: 30},
 		{Name: "wire-resp2-always", Queue: "ring", RESP2: true, Multiplex: 1, RingScale: 3, Always: true, Callers: callers, Ops: ops, CancelPct: 15},
 	}
 	var frames, cancelled, bad int64
